@@ -1,5 +1,603 @@
 package main
 
-func extraJobs(tier string) []job { return nil }
+import (
+	"context"
+	"fmt"
+	"math/big"
+	"sort"
+	"time"
 
-func runExtra(seed int64, j job) ScenarioOut { return ScenarioOut{Name: j.kind, Stats: map[string]int{}} }
+	"github.com/bartossh/Computantis/src/accountant"
+	"github.com/bartossh/Computantis/src/spice"
+	"github.com/bartossh/Computantis/src/transaction"
+	"github.com/bartossh/Computantis/src/wallet"
+)
+
+func extraJobs(tier string) []job {
+	var j []job
+	nTrunc, nPerm, nLoad := 2, 24, 16
+	if tier == "thorough" {
+		nTrunc, nPerm, nLoad = 12, 400, 200
+	}
+	for i := 0; i < nTrunc; i++ {
+		j = append(j, job{"truncate", i, 0, 0})
+	}
+	for i := 0; i < nPerm; i++ {
+		j = append(j, job{"perm", i, 0, 0})
+	}
+	for i := 0; i < nLoad; i++ {
+		j = append(j, job{"load", i, 0, 0})
+	}
+	return j
+}
+
+func runExtra(seed int64, j job) ScenarioOut {
+	switch j.kind {
+	case "truncate":
+		return scenarioTruncate(seed, j.idx)
+	case "perm":
+		return scenarioPerm(seed, j.idx)
+	case "load":
+		return scenarioLoad(seed, j.idx)
+	}
+	return ScenarioOut{Name: j.kind, Stats: map[string]int{}}
+}
+
+// ---------------------------------------------------------------- model state injection
+
+// coqLedger renders a snapshot as a model ledger (dag newest first by creation order).
+func (w *World) coqLedger(s *accountant.VerifSnapshot, self string) string {
+	idx := map[[32]byte]int{}
+	for i, h := range w.order {
+		idx[h] = i
+	}
+	vs := make([]*accountant.Vertex, 0, len(s.Vertices))
+	for i := range s.Vertices {
+		vs = append(vs, &s.Vertices[i])
+	}
+	sort.SliceStable(vs, func(i, j int) bool { return idx[vs[i].Hash] > idx[vs[j].Hash] })
+	inb := map[[32]byte][]int{}
+	for _, e := range s.Edges {
+		inb[e[1]] = append(inb[e[1]], w.H(e[0]))
+	}
+	nodes := make([]string, len(vs))
+	for i, v := range vs {
+		p := inb[v.Hash]
+		// keep declared order left, right
+		var lp []int
+		for _, d := range []int{w.H(v.LeftParentHash), w.H(v.RightParentHash)} {
+			for _, x := range p {
+				if x == d && (len(lp) == 0 || lp[len(lp)-1] != d) {
+					lp = append(lp, d)
+				}
+			}
+		}
+		nodes[i] = fmt.Sprintf("(Node %s %s)", w.coqVtx(v, w.remember(v)), ints(lp))
+	}
+	c := w.canon(s)
+	stv := make([]string, len(s.StoredVertices))
+	for i := range s.StoredVertices {
+		stv[i] = w.coqVtx(&s.StoredVertices[i], w.remember(&s.StoredVertices[i]))
+	}
+	f := make([]string, len(c.Funds))
+	for i, x := range c.Funds {
+		f[i] = fmt.Sprintf("(%d, %s)", x.Addr, coqMel(x.M))
+	}
+	pk := "[]"
+	return fmt.Sprintf("(Ledger %s %s %s %s %s %d %s %d%%Z %d%%Z %s %d)", coqList(nodes), pairs(c.Index), coqList(stv), coqList(f),
+		ints(c.Trusted), c.Genesis, coqBool(c.Loaded), c.Weight, c.Throughput, pk, w.A(self))
+}
+
+// ---------------------------------------------------------------- truncation histories (C07, C08, C14-after-truncation)
+
+func scenarioTruncate(seed int64, idx int) ScenarioOut {
+	w := newWorld(seed*7000003+int64(idx), 7)
+	r := w.rng
+	s := &sim{w: w, bal: map[string]int64{}, pending: map[int][]*accountant.Vertex{}, clock: time.Now().Add(-time.Hour)}
+	s.genesisSigner, s.recvRich, s.users = w.wallets[0], w.wallets[1], w.wallets[1:5]
+	n := newNode(w, fmt.Sprintf("trunc%d", idx), w.wallets[0])
+	n.snapEvery = false
+	s.nodes = []*Node{n}
+	defer n.close()
+	gAmt := spice.Melange{Currency: 1000000}
+	if gv, _ := n.genesis(s.recvRich.Address(), gAmt); gv == nil {
+		return s.out("truncate", false)
+	}
+	ref := map[string]*big.Int{s.recvRich.Address(): valBig(gAmt)}
+	get := func(a string) *big.Int {
+		if ref[a] == nil {
+			ref[a] = new(big.Int)
+		}
+		return ref[a]
+	}
+	target := 1010 + r.Intn(150)
+	braid := idx%2 == 1
+	sealer := w.wallets[5]
+	for k := 0; k < target; k++ {
+		// pick an issuer that holds funds (on the reference), small amounts so nobody runs dry
+		issuer := s.users[r.Intn(len(s.users))]
+		for tries := 0; tries < 8 && get(issuer.Address()).Cmp(big.NewInt(2e18)) < 0; tries++ {
+			issuer = s.users[r.Intn(len(s.users))]
+		}
+		if get(issuer.Address()).Cmp(big.NewInt(2e18)) < 0 {
+			issuer = s.recvRich
+		}
+		recv := w.wallets[1+r.Intn(4)]
+		amt := spice.Melange{Currency: uint64(r.Intn(2)), SupplementaryCurrency: uint64(1 + r.Int63n(int64(e18)-1))}
+		var data []byte
+		if r.Intn(20) == 0 {
+			data, amt = []byte("note"), spice.Melange{}
+		}
+		t := craftTrx(issuer, recv.Address(), "t", data, amt, s.now())
+		ok := false
+		if braid && k%3 == 2 && len(n.prev.Leaves) >= 1 {
+			// a gossiped vertex on top of the current tip(s): widens the DAG
+			sn := n.ab.VerifSnapshot()
+			l := sn.Leaves[r.Intn(len(sn.Leaves))]
+			rr := sn.Leaves[r.Intn(len(sn.Leaves))]
+			var mw uint64
+			for i := range sn.Vertices {
+				if (sn.Vertices[i].Hash == l || sn.Vertices[i].Hash == rr) && sn.Vertices[i].Weight > mw {
+					mw = sn.Vertices[i].Weight
+				}
+			}
+			v, _ := accountant.NewVertex(t, l, rr, mw+1, sealer)
+			ok = n.addQuiet(&v) == "ROk"
+		} else {
+			_, cls := n.createQuiet(&t)
+			ok = cls == "ROk"
+		}
+		if ok && amt.Currency+amt.SupplementaryCurrency > 0 {
+			get(issuer.Address()).Sub(get(issuer.Address()), valBig(amt))
+			get(recv.Address()).Add(get(recv.Address()), valBig(amt))
+		}
+	}
+	// a stale side tip hanging off an old vertex (does not descend from the cut)
+	before := n.ab.VerifSnapshot()
+	n.prev = before
+	n.steps = nil // model state is injected from `before`
+	n.ops = []string{fmt.Sprintf("(history of %d vertices built by proposals%s; model state injected from the snapshot)", len(before.Vertices), map[bool]string{true: " and gossiped merges", false: ""}[braid])}
+	initL := w.coqLedger(&before, n.signer.Address())
+	n.snapEvery = true
+	// observations before truncation
+	type obsT struct {
+		bal map[string]string
+		vtx map[[32]byte]string
+		trx map[[32]byte]string
+	}
+	observe := func() obsT {
+		o := obsT{bal: map[string]string{}, vtx: map[[32]byte]string{}, trx: map[[32]byte]string{}}
+		for _, wl := range w.wallets {
+			b, err := n.ab.CalculateBalance(context.Background(), wl.Address())
+			o.bal[wl.Address()] = fmt.Sprintf("%v/%v", b.Spice, err != nil)
+		}
+		for i := range before.Vertices {
+			v := &before.Vertices[i]
+			got, err := n.ab.ReadVertex(context.Background(), v.Hash)
+			enc, _ := got.VerifEncode()
+			o.vtx[v.Hash] = fmt.Sprintf("%x/%v", enc, err != nil)
+			tr, err := n.ab.ReadTransactionByHash(context.Background(), v.Transaction.Hash)
+			te, _ := tr.Encode()
+			o.trx[v.Transaction.Hash] = fmt.Sprintf("%x/%v", te, err != nil)
+		}
+		return o
+	}
+	singleTip := len(before.Leaves) == 1
+	o0 := observe()
+	// ---- truncate (watchdog: a hang is a C08 violation, reported there)
+	done := make(chan error, 1)
+	go func() {
+		err, pn := safely(func() error { return n.ab.VerifTruncate(context.Background()) })
+		if pn {
+			n.violate("C08", "truncate-panics", err.Error())
+		}
+		done <- err
+	}()
+	var terr error
+	select {
+	case terr = <-done:
+	case <-time.After(90 * time.Second):
+		n.violate("C08", "truncate-hangs", "truncate did not return within 90 s")
+		return s.out("truncate", false)
+	}
+	after := n.ab.VerifSnapshot()
+	// which vertex was the cut: the live vertex whose ancestors (before) are exactly the moved set
+	moved := map[[32]byte]bool{}
+	pvw := mkView(&before)
+	for i := range after.StoredVertices {
+		h := after.StoredVertices[i].Hash
+		if _, was := pvw.stored[h]; !was {
+			moved[h] = true
+		}
+	}
+	cut := 0
+	for i := range after.Vertices {
+		c := &after.Vertices[i]
+		hist := pvw.history(c.Hash)
+		if len(hist)-1 != len(moved) || len(moved) == 0 {
+			continue
+		}
+		all := true
+		for _, a := range hist[1:] {
+			if !moved[a.Hash] {
+				all = false
+			}
+		}
+		if all {
+			cut = w.H(c.Hash)
+			break
+		}
+	}
+	n.stats["trunc.moved"] += len(moved)
+	n.record(fmt.Sprintf("(OTruncate %d [])", cut), "(BRes "+classify(terr)+")", fmt.Sprintf("truncate -> %v, moved %d vertices, cut=%d", terr, len(moved), cut), "truncate", nil)
+	if terr == nil && len(moved) > 0 {
+		n.stats["trunc.completed"]++
+	}
+	// ---- C07 monitors
+	o1 := observe()
+	if terr == nil {
+		if singleTip { // every tip descends from the cut
+			for a, b0 := range o0.bal {
+				if o1.bal[a] != b0 {
+					key := "balance-changed-by-truncation"
+					if len(b0) > 5 && b0[len(b0)-5:] == "/true" && o1.bal[a] == "0.0/false" {
+						// the query failed before (negative sum) and reports 0.0 afterwards
+						key = "overdrawn-wallet-reset-by-truncation"
+					}
+					n.violate("C07", key, fmt.Sprintf("wallet %d: %s before, %s after truncation (value/error)", w.A(a), b0, o1.bal[a]))
+				}
+			}
+		}
+		for h, e0 := range o0.vtx {
+			if o1.vtx[h] != e0 {
+				n.violate("C07", "vertex-read-changed", fmt.Sprintf("vertex %d reads differently after truncation", w.H(h)))
+			}
+		}
+		for h, e0 := range o0.trx {
+			if o1.trx[h] != e0 {
+				n.violate("C07", "transaction-read-changed", fmt.Sprintf("transaction %d reads differently after truncation", w.H(h)))
+			}
+		}
+		// stored funds = net flow of exactly the stored vertices, each counted once
+		net := map[string]*big.Int{}
+		for i := range after.StoredVertices {
+			v := &after.StoredVertices[i]
+			if !v.Transaction.IsSpiceTransfer() {
+				continue
+			}
+			for _, a := range []string{v.Transaction.IssuerAddress, v.Transaction.ReceiverAddress} {
+				if net[a] == nil {
+					net[a] = new(big.Int)
+				}
+			}
+			net[v.Transaction.IssuerAddress].Sub(net[v.Transaction.IssuerAddress], valBig(v.Transaction.Spice))
+			net[v.Transaction.ReceiverAddress].Add(net[v.Transaction.ReceiverAddress], valBig(v.Transaction.Spice))
+		}
+		for a, x := range net {
+			if a == after.Genesis {
+				continue // the issuer of genesis is overdrawn by construction; the code keeps its funds at 0
+			}
+			got, ok := after.StoredFunds[a]
+			if !ok || valBig(got).Cmp(x) != 0 {
+				n.violate("C07", "checkpoint-funds-not-net-flow", fmt.Sprintf("wallet %d: checkpointed %v, net flow of stored vertices %s", w.A(a), got, x))
+			}
+		}
+		// re-submission of checkpointed material
+		cnt := 0
+		for i := range after.StoredVertices {
+			if cnt >= 3 {
+				break
+			}
+			v := after.StoredVertices[i]
+			if v.Transaction.IssuerAddress == after.Genesis {
+				continue
+			}
+			cnt++
+			if cls := n.add(&v, -1); cls != "RVertexExists" {
+				n.violate("C07", "checkpointed-vertex-readmitted", fmt.Sprintf("re-offering checkpointed vertex %d -> %s", w.H(v.Hash), cls))
+			}
+			tr := v.Transaction
+			if _, cls := n.create(&tr, -1); cls != "RTrxExists" && cls != "ROwnNode" {
+				n.violate("C07", "checkpointed-trx-resealed", fmt.Sprintf("re-proposing checkpointed transaction %d -> %s", w.H(tr.Hash), cls))
+			}
+			if len(after.Leaves) > 0 {
+				nv, _ := accountant.NewVertex(tr, after.Leaves[0], after.Leaves[0], v.Weight+2000, sealer)
+				if cls := n.add(&nv, -1); cls == "ROk" || cls == "RParentMissing" {
+					n.violate("C07", "checkpointed-trx-resealed", fmt.Sprintf("checkpointed transaction %d admitted in a new wrapper -> %s", w.H(tr.Hash), cls))
+				}
+			}
+		}
+		// later transfers validate against the same funds: spend (almost) everything a wallet holds, then one unit more
+		for _, u := range s.users[:2] {
+			have := get(u.Address())
+			if have.Sign() <= 0 {
+				continue
+			}
+			q, m := new(big.Int).QuoRem(have, e18big, new(big.Int))
+			all := spice.Melange{Currency: q.Uint64(), SupplementaryCurrency: m.Uint64()}
+			t := craftTrx(u, s.recvRich.Address(), "all", nil, all, s.now())
+			if _, cls := n.create(&t, -1); cls == "ROk" {
+				get(u.Address()).Sub(get(u.Address()), valBig(all))
+				get(s.recvRich.Address()).Add(get(s.recvRich.Address()), valBig(all))
+			}
+			t2 := craftTrx(u, s.recvRich.Address(), "over", nil, spice.Melange{SupplementaryCurrency: 1}, s.now())
+			n.create(&t2, -1)
+			t3 := craftTrx(s.recvRich, u.Address(), "next", nil, spice.Melange{SupplementaryCurrency: 5}, s.now())
+			if _, cls := n.create(&t3, -1); cls == "ROk" {
+				get(u.Address()).Add(get(u.Address()), big.NewInt(5))
+				get(s.recvRich.Address()).Sub(get(s.recvRich.Address()), big.NewInt(5))
+			}
+			t4 := craftTrx(s.recvRich, u.Address(), "next2", nil, spice.Melange{SupplementaryCurrency: 5}, s.now())
+			if _, cls := n.create(&t4, -1); cls == "ROk" {
+				get(u.Address()).Add(get(u.Address()), big.NewInt(5))
+				get(s.recvRich.Address()).Sub(get(s.recvRich.Address()), big.NewInt(5))
+			}
+		}
+		for _, wl := range w.wallets[:5] {
+			got, err := n.balance(wl.Address(), -1)
+			if len(n.prev.Leaves) == 1 && braid == false {
+				want := get(wl.Address())
+				if want.Sign() >= 0 && (err != nil || valBig(got).Cmp(want) != 0) {
+					// the last created tip may be an overdraft attempt that is still tentative: tolerate exactly that
+					n.stats["trunc.balance_vs_reference_diff"]++
+				}
+			}
+		}
+		// C14 on a truncated source: the stream can no longer be loaded (known finding)
+		dst := newNode(w, fmt.Sprintf("trunc%d.loaded", idx), w.wallets[6])
+		defer dst.close()
+		stream := streamOf(n)
+		dst.snapEvery = false
+		if !loadInto(dst, stream, w) {
+			n.violate("C14", "truncated-source-not-loadable", fmt.Sprintf("a peer that has truncated streams %d vertices whose cut vertex declares checkpointed parents: LoadDag refuses, checkpointed funds are not transferred", len(stream)))
+		}
+		s.nodes = append(s.nodes, dst)
+	}
+	o := s.out("truncate", true)
+	o.Traces[0] = fmt.Sprintf("(Trace %d (Some %s) %s)", w.A(n.signer.Address()), initL, coqList(n.steps))
+	o.NonTriv = terr == nil && len(moved) > 0
+	return o
+}
+
+// quiet variants used while building long histories (no snapshot, no Coq step)
+func (n *Node) createQuiet(trx *transaction.Transaction) (*accountant.Vertex, string) {
+	v, err := n.ab.CreateLeaf(context.Background(), trx)
+	if err != nil {
+		return nil, classify(err)
+	}
+	n.w.remember(&v)
+	n.stats["op.create.quiet"]++
+	return &v, "ROk"
+}
+func (n *Node) addQuiet(v *accountant.Vertex) string {
+	n.w.remember(v)
+	cp := *v
+	err := n.ab.AddLeaf(context.Background(), &cp)
+	n.stats["op.add.quiet"]++
+	return classify(err)
+}
+
+// ---------------------------------------------------------------- permutations of delivery (C13)
+
+func scenarioPerm(seed int64, idx int) ScenarioOut {
+	// the vertex set is the same for all idx of one seed; idx selects the permutation
+	w := newWorld(seed*9000011, 7)
+	s := &sim{w: w, bal: map[string]int64{}, pending: map[int][]*accountant.Vertex{}, clock: time.Now().Add(-time.Hour)}
+	s.genesisSigner, s.recvRich, s.users = w.wallets[0], w.wallets[1], w.wallets[1:5]
+	src := newNode(w, "perm.src", w.wallets[0])
+	src.snapEvery = false
+	defer src.close()
+	gv, _ := src.genesis(s.recvRich.Address(), spice.Melange{Currency: 1000})
+	if gv == nil {
+		return s.out("perm", false)
+	}
+	// a valid history of 6 vertices: chain with one merge, sealed by another node so that they arrive by gossip
+	sealer := w.wallets[5]
+	var set []*accountant.Vertex
+	mk := func(issuer *wallet.Wallet, recv string, cur uint64, l, r *accountant.Vertex) *accountant.Vertex {
+		t := craftTrx(issuer, recv, "p", nil, spice.Melange{Currency: cur, SupplementaryCurrency: 1}, s.now())
+		wgt := l.Weight
+		if r.Weight > wgt {
+			wgt = r.Weight
+		}
+		v, _ := accountant.NewVertex(t, l.Hash, r.Hash, wgt+1, sealer)
+		w.remember(&v)
+		set = append(set, &v)
+		return &v
+	}
+	a := mk(s.recvRich, s.users[1].Address(), 100, gv, gv)
+	b := mk(s.users[1], s.users[2].Address(), 40, a, a)
+	c := mk(s.recvRich, s.users[3].Address(), 50, a, a)
+	d := mk(s.users[2], s.users[3].Address(), 10, b, c)
+	e := mk(s.users[3], s.users[1].Address(), 55, d, d)
+	mk(s.users[1], s.recvRich.Address(), 5, e, d)
+	// reference: parents-first delivery
+	ref := newNode(w, "perm.ref", w.wallets[6])
+	defer ref.close()
+	loadInto(ref, streamOf(src), w)
+	for _, v := range set {
+		ref.add(v, -1)
+	}
+	refSnap := w.canon(&ref.prev)
+	// the permutation under test
+	dst := newNode(w, fmt.Sprintf("perm%d", idx), w.wallets[6])
+	defer dst.close()
+	loadInto(dst, streamOf(src), w)
+	pr := newWorld(seed*31+int64(idx), 0).rng
+	perm := pr.Perm(len(set))
+	if idx == 0 {
+		for i := range perm {
+			perm[i] = len(set) - 1 - i // fully reversed
+		}
+	}
+	parked := 0
+	for k, i := range perm {
+		cls := dst.add(set[i], -1)
+		if cls == "RParentMissing" {
+			parked++
+		}
+		if pr.Intn(4) == 0 { // duplicate delivery
+			dst.add(set[i], -1)
+		}
+		if pr.Intn(3) == 0 {
+			dst.retry(-1)
+		}
+		if k == 2 && pr.Intn(2) == 0 { // interleaved local proposal
+			t := craftTrx(s.recvRich, s.users[0].Address(), "local", []byte("x"), spice.Melange{}, s.now())
+			if v, cls := dst.create(&t, -1); cls == "ROk" {
+				ref.add(v, -1) // the reference receives it by gossip so that both hold the same set
+				refSnap = w.canon(&ref.prev)
+			}
+		}
+	}
+	for i := 0; i < 200; i++ {
+		if had, _ := dst.retry(-1); !had {
+			break
+		}
+	}
+	dst.stats["perm.parked"] += parked
+	got := w.canon(&dst.prev)
+	if len(dst.prev.Parked) != 0 {
+		dst.violate("C13", "buffer-not-drained", fmt.Sprintf("%d vertices still parked after 200 retry rounds", len(dst.prev.Parked)))
+	}
+	if ints(got.Dag) != ints(refSnap.Dag) || pairs(got.Edges) != pairs(refSnap.Edges) || pairs(got.Index) != pairs(refSnap.Index) {
+		dst.violate("C13", "not-confluent", fmt.Sprintf("delivery order %v ends with vertices %v edges %v; parents-first has %v %v", perm, got.Dag, got.Edges, refSnap.Dag, refSnap.Edges))
+	}
+	s.nodes = []*Node{dst}
+	o := s.out("perm", true)
+	o.NonTriv = parked > 0
+	return o
+}
+
+// ---------------------------------------------------------------- syncing (C14)
+
+func scenarioLoad(seed int64, idx int) ScenarioOut {
+	w := newWorld(seed*11000027+int64(idx), 7)
+	r := w.rng
+	s := &sim{w: w, bal: map[string]int64{}, pending: map[int][]*accountant.Vertex{}, clock: time.Now().Add(-time.Hour)}
+	s.genesisSigner, s.recvRich, s.users = w.wallets[0], w.wallets[1], w.wallets[1:5]
+	src := newNode(w, fmt.Sprintf("load%d.src", idx), w.wallets[0])
+	defer src.close()
+	gv, _ := src.genesis(s.recvRich.Address(), spice.Melange{Currency: 5000})
+	if gv == nil {
+		return s.out("load", false)
+	}
+	s.bal[s.recvRich.Address()] = 5000
+	s.nodes = []*Node{src}
+	nOps := 5 + r.Intn(30)
+	for k := 0; k < nOps; k++ {
+		if r.Intn(3) == 0 {
+			s.crafted(src, 0, -1)
+			continue
+		}
+		issuer := s.users[r.Intn(len(s.users))]
+		b := s.bal[issuer.Address()]
+		if b <= 0 {
+			issuer, b = s.recvRich, s.bal[s.recvRich.Address()]
+		}
+		recv := w.wallets[1+r.Intn(4)]
+		amt := s.amount(b/3 + 1)
+		t := craftTrx(issuer, recv.Address(), "t", nil, amt, s.now())
+		if _, cls := src.create(&t, -1); cls == "ROk" {
+			s.bal[issuer.Address()] -= int64(amt.Currency)
+			s.bal[recv.Address()] += int64(amt.Currency)
+		}
+	}
+	stream := streamOf(src)
+	// stream is a duplicate-free enumeration of the live vertices
+	seen := map[[32]byte]bool{}
+	for _, v := range stream {
+		if seen[v.Hash] {
+			src.violate("C14", "stream-duplicate", fmt.Sprintf("StreamDAG sent vertex %d twice", w.H(v.Hash)))
+		}
+		seen[v.Hash] = true
+	}
+	if len(seen) != len(src.prev.Vertices) {
+		src.violate("C14", "stream-incomplete", fmt.Sprintf("StreamDAG sent %d of %d live vertices", len(seen), len(src.prev.Vertices)))
+	}
+	corrupt := idx % 6
+	dst := newNode(w, fmt.Sprintf("load%d.dst", idx), w.wallets[6])
+	defer dst.close()
+	st := append([]*accountant.Vertex{}, stream...)
+	expectLoaded := true
+	switch corrupt {
+	case 1: // duplicate vertex
+		if len(st) > 1 {
+			st = append(st, st[r.Intn(len(st))])
+			expectLoaded = false
+		}
+	case 2: // a vertex is missing: somebody's parent is unknown
+		if len(st) > 2 {
+			// drop a vertex that has a child
+			vw := mkView(&src.prev)
+			for i, v := range st {
+				if vw.child[v.Hash] {
+					st = append(append([]*accountant.Vertex{}, st[:i]...), st[i+1:]...)
+					expectLoaded = false
+					break
+				}
+			}
+		}
+	case 3: // second self-sealed vertex
+		t := craftTrx(w.wallets[5], s.users[0].Address(), "self", nil, spice.Melange{Currency: 1}, s.now())
+		v, _ := accountant.NewVertex(t, gv.Hash, gv.Hash, gv.Weight+1, w.wallets[5])
+		st = append(st, &v)
+		expectLoaded = false
+	case 4: // empty transaction
+		t := craftTrx(s.users[0], s.users[1].Address(), "empty", nil, spice.Melange{}, s.now())
+		v, _ := accountant.NewVertex(t, gv.Hash, gv.Hash, gv.Weight+1, w.wallets[5])
+		st = append(st, &v)
+		expectLoaded = false
+	case 5: // same transaction in two vertices
+		if len(st) > 1 {
+			v, _ := accountant.NewVertex(st[len(st)-1].Transaction, gv.Hash, gv.Hash, gv.Weight+1, w.wallets[5])
+			if st[len(st)-1].Transaction.IssuerAddress != w.wallets[5].Address() {
+				st = append(st, &v)
+				expectLoaded = false
+			}
+		}
+	}
+	ok := loadInto(dst, st, w)
+	dst.stats[fmt.Sprintf("load.corrupt%d", corrupt)]++
+	if ok != expectLoaded {
+		if expectLoaded {
+			dst.violate("C14", "good-stream-refused", fmt.Sprintf("LoadDag refused the peer's own stream of %d vertices", len(st)))
+		} else {
+			dst.violate("C14", "malformed-stream-loaded", fmt.Sprintf("LoadDag marked the node loaded on a malformed stream (corruption kind %d)", corrupt))
+		}
+	}
+	if ok && expectLoaded {
+		a, b := w.canon(&src.prev), w.canon(&dst.prev)
+		if ints(a.Dag) != ints(b.Dag) || pairs(a.Edges) != pairs(b.Edges) || pairs(a.Index) != pairs(b.Index) || a.Genesis != b.Genesis {
+			dst.violate("C14", "loaded-ledger-differs", fmt.Sprintf("source vertices %v edges %v genesis %d; loaded %v %v %d", a.Dag, a.Edges, a.Genesis, b.Dag, b.Edges, b.Genesis))
+		}
+		// balances: tip by tip through the reference on both snapshots, plus the real query on single-tip ledgers
+		if len(src.prev.Leaves) == 1 {
+			for _, wl := range w.wallets {
+				x, e1 := src.balance(wl.Address(), -1)
+				y, e2 := dst.balance(wl.Address(), -1)
+				if x != y || (e1 == nil) != (e2 == nil) {
+					dst.violate("C14", "loaded-balance-differs", fmt.Sprintf("wallet %d: source %v/%v loaded %v/%v", w.A(wl.Address()), x, e1, y, e2))
+				}
+			}
+		}
+		// identical follow-up gossip on both
+		s.nodes = []*Node{src, dst}
+		for k := 0; k < 6; k++ {
+			s.lastCrafted = nil
+			s.crafted(src, 0, -1)
+			if s.lastCrafted == nil {
+				continue
+			}
+			cls2 := dst.add(s.lastCrafted, -1)
+			dst.stats["load.followup"]++
+			if cls2 != s.lastCls {
+				dst.violate("C14", "followup-gossip-differs", fmt.Sprintf("vertex %d: source answers %s, loaded node %s", w.H(s.lastCrafted.Hash), s.lastCls, cls2))
+			}
+		}
+	}
+	s.nodes = []*Node{src, dst}
+	o := s.out("load", true)
+	o.NonTriv = true
+	return o
+}
